@@ -9,8 +9,8 @@ theorem rest_advance (env : Env) (st : St) (n : Nat) :
     ({ st with pos := st.pos + n } : St).rest env = (st.rest env).drop n := by
   simp only [St.rest, offset_advance, List.drop_drop]
 
-theorem mu_le (env : Env) (st : St) : mu env st ≤ env.bytes.length + 1 := by
-  unfold mu; split <;> omega
+theorem mu_le (env : Env) (st : St) : mu env st ≤ 2 * env.bytes.length + 3 := by
+  unfold mu; split <;> split <;> omega
 
 theorem Inv.rest_cons {env : Env} {st : St} (h : Inv env st) {c : Byte} {t : List Byte}
     (hv : st.visible = c :: t) : ∃ r, st.rest env = c :: r := by
@@ -34,7 +34,7 @@ def FrontPost (env : Env) (st : St) : Front → Prop
   | .endSeen st' => Inv env st' ∧ st'.offset = st.offset ∧ st.rest env = [] ∧ st'.atEnd = true
   | .eofExc st' => st' = st ∧ st.rest env = [] ∧ st.atEnd = true
 
-theorem front_spec {env : Env} {st : St} (hfix : env.cfg.fixH = true) (h : Inv env st) :
+theorem front_spec {env : Env} {st : St} (hfix : ShiftFixed env) (h : Inv env st) :
     FrontPost env st (front env st) := by
   unfold front
   cases hv : st.visible with
@@ -68,7 +68,7 @@ theorem front_spec {env : Env} {st : St} (hfix : env.cfg.fixH = true) (h : Inv e
 
 /-! ### peek / get -/
 
-theorem peek_spec {env : Env} {st : St} (hfix : env.cfg.fixH = true) (hfixI : env.cfg.fixI = true) (h : Inv env st) :
+theorem peek_spec {env : Env} {st : St} (hfix : ShiftFixed env) (hfixI : env.cfg.fixI = true) (h : Inv env st) :
     (peek env st).1 = (match st.rest env with | [] => Res.eof | c :: _ => Res.char c) ∧
     (peek env st).2.offset = st.offset ∧ Inv env (peek env st).2 ∧
     (∀ c, (peek env st).1 = Res.char c → ∃ t, (peek env st).2.visible = c :: t) := by
@@ -95,7 +95,7 @@ theorem peek_spec {env : Env} {st : St} (hfix : env.cfg.fixH = true) (hfixI : en
     rw [hr]
     exact ⟨rfl, rfl, h, by intro c hc; cases hc⟩
 
-theorem get_spec {env : Env} {st : St} (hfix : env.cfg.fixH = true) (hfixI : env.cfg.fixI = true) (h : Inv env st) :
+theorem get_spec {env : Env} {st : St} (hfix : ShiftFixed env) (hfixI : env.cfg.fixI = true) (h : Inv env st) :
     (get env st).1 = (match st.rest env with | [] => Res.eof | c :: _ => Res.char c) ∧
     (get env st).2.offset = st.offset + (match st.rest env with | [] => 0 | _ :: _ => 1) ∧ Inv env (get env st).2 := by
   obtain ⟨h1, h2, h3, h4⟩ := peek_spec hfix hfixI h
@@ -120,7 +120,7 @@ theorem get_spec {env : Env} {st : St} (hfix : env.cfg.fixH = true) (hfixI : env
 
 /-! ### SkipSpaces -/
 
-theorem skipSpaces_spec {env : Env} (hfix : env.cfg.fixH = true) (d : Byte → Bool) :
+theorem skipSpaces_spec {env : Env} (hfix : ShiftFixed env) (d : Byte → Bool) :
     ∀ (f : Nat) (st : St), Inv env st → (st.rest env).length < f →
       let out := skipSpaces env d f st
       (out.1 = Res.skipped ∨ (out.1 = Res.eof ∧ (st.rest env).dropWhile d = [])) ∧
@@ -175,20 +175,18 @@ theorem Inv.visible_prefix {env : Env} {st : St} (h : Inv env st) :
   refine ⟨(st.rest env).drop (st.win.length - st.pos), ?_⟩
   rw [h.visible_eq, List.take_append_drop]
 
-/-- the bytes already scanned stay where they are after a Shift -/
-theorem visible_take_after_shift {env : Env} {st st' : St} (h : Inv env st) (hp : ShiftPost env st st') :
-    st'.visible.take st.visible.length = st.visible := by
-  obtain ⟨m, hm⟩ := h.visible_prefix
-  have h1 := hp.vis_le
-  rw [hp.inv.visible_length] at h1
-  rw [hp.inv.visible_eq, rest_of_offset_eq hp.offset_eq, List.take_take, Nat.min_eq_left h1, hm]
-  exact List.take_left
+/-- bytes already scanned without a hit stay scanned after a Shift (the new window shows the same bytes at the
+same offsets, possibly fewer of them after a fall back from mmap to read) -/
+theorem no_hit_after_shift {env : Env} {st st' : St} (h : Inv env st) (hp : ShiftPost env st st')
+    {p : Byte → Bool} (hn : idxOf p st.visible = none) : idxOf p (st'.visible.take st.visible.length) = none := by
+  rw [visible_common h hp.inv hp.offset_eq]
+  exact idxOf_take_none _ hn
 
 theorem scan_hit {env : Env} {st : St} (h : Inv env st) {p : Byte → Bool} {skip i : Nat}
-    (hs : skip ≤ st.visible.length) (hn : idxOf p (st.visible.take skip) = none)
+    (hn : idxOf p (st.visible.take skip) = none)
     (hi : idxFrom p st.visible skip = some i) :
     idxOf p (st.rest env) = some i ∧ i < st.visible.length ∧ st.visible.take (i + 1) = (st.rest env).take (i + 1) := by
-  rw [idxFrom_eq_idxOf hn hs] at hi
+  rw [idxFrom_eq_idxOf' hn] at hi
   have hlt := idxOf_some_lt hi
   have hv := h.visible_eq
   refine ⟨?_, hlt, ?_⟩
@@ -198,9 +196,9 @@ theorem scan_hit {env : Env} {st : St} (h : Inv env st) {p : Byte → Bool} {ski
     congr 1; omega
 
 theorem scan_miss {st : St} {p : Byte → Bool} {skip : Nat}
-    (hs : skip ≤ st.visible.length) (hn : idxOf p (st.visible.take skip) = none)
+    (hn : idxOf p (st.visible.take skip) = none)
     (hi : idxFrom p st.visible skip = none) : idxOf p st.visible = none := by
-  rw [idxFrom_eq_idxOf hn hs] at hi; exact hi
+  rw [idxFrom_eq_idxOf' hn] at hi; exact hi
 
 /-- what FindDelimiterOrEOF returns, in terms of the whole remaining input -/
 def FindPost (env : Env) (st : St) (p : Byte → Bool) : Except Err (Nat × St) → Prop
@@ -209,19 +207,19 @@ def FindPost (env : Env) (st : St) (p : Byte → Bool) : Except Err (Nat × St) 
       st'.visible.take n = (st.rest env).take n ∧ st.rest env ≠ [] ∧
       n = (match idxOf p (st.rest env) with | some i => i | none => (st.rest env).length)
 
-theorem findDelimiterOrEOF_spec {env : Env} (hfix : env.cfg.fixH = true) (p : Byte → Bool) :
-    ∀ (f : Nat) (skip : Nat) (st : St), Inv env st → mu env st < f → skip ≤ st.visible.length →
+theorem findDelimiterOrEOF_spec {env : Env} (hfix : ShiftFixed env) (p : Byte → Bool) :
+    ∀ (f : Nat) (skip : Nat) (st : St), Inv env st → mu env st < f →
       idxOf p (st.visible.take skip) = none →
       FindPost env st p (findDelimiterOrEOF env p f skip st) := by
   intro f
   induction f with
   | zero => intro skip st _ hm; omega
   | succ f ih =>
-    intro skip st h hmu hs hn
+    intro skip st h hmu hn
     simp only [findDelimiterOrEOF]
     cases hi : idxFrom p st.visible skip with
     | some i =>
-      obtain ⟨a, b, c⟩ := scan_hit h hs hn hi
+      obtain ⟨a, b, c⟩ := scan_hit h hn hi
       dsimp only
       refine ⟨h, rfl, by omega, ?_, ?_, by rw [a]⟩
       · have := congrArg (List.take i) c
@@ -230,7 +228,7 @@ theorem findDelimiterOrEOF_spec {env : Env} (hfix : env.cfg.fixH = true) (p : By
         exact this
       · intro hc; rw [hc] at a; simp [idxOf] at a
     | none =>
-      have hnone := scan_miss hs hn hi
+      have hnone := scan_miss hn hi
       dsimp only
       cases he : st.atEnd with
       | true =>
@@ -249,8 +247,7 @@ theorem findDelimiterOrEOF_spec {env : Env} (hfix : env.cfg.fixH = true) (p : By
         obtain ⟨st', hsh, hp⟩ := shift_post hfix h he
         rw [hsh]
         dsimp only
-        have htk := visible_take_after_shift h hp
-        have := ih st.visible.length st' hp.inv (by have := hp.mu_lt; omega) hp.vis_le (by rw [htk]; exact hnone)
+        have := ih st.visible.length st' hp.inv (by have := hp.mu_lt; omega) (no_hit_after_shift h hp hnone)
         cases hres : findDelimiterOrEOF env p f st.visible.length st' with
         | error e =>
           rw [hres] at this
@@ -289,8 +286,8 @@ theorem take_of_take_eq {l m : List Byte} {n j : Nat} (h : l.take n = m.take n) 
   have := congrArg (List.take j) h
   rwa [List.take_take, List.take_take, Nat.min_eq_left hj] at this
 
-theorem readLine_spec {env : Env} (hfix : env.cfg.fixH = true) (G : NumKind → Grammar) (d : Byte) (s : Bool) :
-    ∀ (f : Nat) (skip : Nat) (st : St), Inv env st → mu env st < f → skip ≤ st.visible.length →
+theorem readLine_spec {env : Env} (hfix : ShiftFixed env) (G : NumKind → Grammar) (d : Byte) (s : Bool) :
+    ∀ (f : Nat) (skip : Nat) (st : St), Inv env st → mu env st < f →
       idxOf (· == d) (st.visible.take skip) = none →
       (readLine env d s f skip st).1 = (specOp G (.readLine d s) (st.rest env)).1 ∧
       (readLine env d s f skip st).2.offset = st.offset + (specOp G (.readLine d s) (st.rest env)).2 ∧
@@ -299,12 +296,12 @@ theorem readLine_spec {env : Env} (hfix : env.cfg.fixH = true) (G : NumKind → 
   induction f with
   | zero => intro skip st _ hm; omega
   | succ f ih =>
-    intro skip st h hmu hs hn
+    intro skip st h hmu hn
     rw [specOp_readLine]
     simp only [readLine]
     cases hi : idxFrom (· == d) st.visible skip with
     | some i =>
-      obtain ⟨a, b, c⟩ := scan_hit h hs hn hi
+      obtain ⟨a, b, c⟩ := scan_hit h hn hi
       have hne : st.rest env ≠ [] := by intro hc; rw [hc] at a; simp [idxOf] at a
       rw [if_neg hne, a]
       dsimp only
@@ -317,7 +314,7 @@ theorem readLine_spec {env : Env} (hfix : env.cfg.fixH = true) (G : NumKind → 
         rw [offset_advance]
       · exact h.advance (i + 1) (by omega)
     | none =>
-      have hnone := scan_miss hs hn hi
+      have hnone := scan_miss hn hi
       dsimp only
       cases he : st.atEnd with
       | true =>
@@ -342,8 +339,7 @@ theorem readLine_spec {env : Env} (hfix : env.cfg.fixH = true) (G : NumKind → 
         obtain ⟨st', hsh, hp⟩ := shift_post hfix h he
         rw [hsh]
         dsimp only
-        have htk := visible_take_after_shift h hp
-        have := ih st.visible.length st' hp.inv (by have := hp.mu_lt; omega) hp.vis_le (by rw [htk]; exact hnone)
+        have := ih st.visible.length st' hp.inv (by have := hp.mu_lt; omega) (no_hit_after_shift h hp hnone)
         rw [specOp_readLine, rest_of_offset_eq hp.offset_eq, hp.offset_eq] at this
         exact this
 
@@ -381,7 +377,7 @@ theorem found_is_takeWhile {p : Byte → Bool} {l : List Byte} {n : Nat}
     rw [h] at hn; subst hn
     exact ⟨by rw [idxOf_none_takeWhile h, List.take_length], Nat.le_refl _⟩
 
-theorem find_consume {env : Env} (hfix : env.cfg.fixH = true) (d : Byte → Bool) (f : Nat) (st1 : St)
+theorem find_consume {env : Env} (hfix : ShiftFixed env) (d : Byte → Bool) (f : Nat) (st1 : St)
     (h1 : Inv env st1) (hmu : mu env st1 < f) :
     let out : Res × St := match findDelimiterOrEOF env d f 0 st1 with
       | .error .eof => (Res.eof, st1)
@@ -390,7 +386,7 @@ theorem find_consume {env : Env} (hfix : env.cfg.fixH = true) (d : Byte → Bool
     (if st1.rest env = [] then out.1 = Res.eof ∧ out.2.offset = st1.offset
      else out.1 = Res.bytes ((st1.rest env).takeWhile (fun b => !d b)) ∧
           out.2.offset = st1.offset + ((st1.rest env).takeWhile (fun b => !d b)).length) ∧ Inv env out.2 := by
-  have hf := findDelimiterOrEOF_spec hfix d f 0 st1 h1 hmu (Nat.zero_le _) (by simp [idxOf])
+  have hf := findDelimiterOrEOF_spec hfix d f 0 st1 h1 hmu (by simp [idxOf])
   cases hres : findDelimiterOrEOF env d f 0 st1 with
   | error e =>
     rw [hres] at hf
@@ -410,8 +406,8 @@ theorem find_consume {env : Env} (hfix : env.cfg.fixH = true) (d : Byte → Bool
     · show ({ st2 with pos := st2.pos + n } : St).offset = _
       rw [offset_advance, b, t1, List.length_take, Nat.min_eq_left t2]
 
-theorem readDelimited_spec {env : Env} (hfix : env.cfg.fixH = true) (G : NumKind → Grammar) (d : Byte → Bool)
-    (f : Nat) (st : St) (h : Inv env st) (hf : env.bytes.length + 1 < f) :
+theorem readDelimited_spec {env : Env} (hfix : ShiftFixed env) (G : NumKind → Grammar) (d : Byte → Bool)
+    (f : Nat) (st : St) (h : Inv env st) (hf : 2 * env.bytes.length + 3 < f) :
     (readDelimited env d f st).1 = (specOp G (.readDelimited d) (st.rest env)).1 ∧
     (readDelimited env d f st).2.offset = st.offset + (specOp G (.readDelimited d) (st.rest env)).2 ∧
     Inv env (readDelimited env d f st).2 := by
@@ -461,7 +457,7 @@ theorem specOp_readWordSameLine (G : NumKind → Grammar) (d : Byte → Bool) (r
   rw [drop_takeWhile_length]
   rfl
 
-theorem wordSkip_spec {env : Env} (hfix : env.cfg.fixH = true) (d : Byte → Bool) :
+theorem wordSkip_spec {env : Env} (hfix : ShiftFixed env) (d : Byte → Bool) :
     ∀ (f : Nat) (st : St), Inv env st → (st.rest env).length < f →
       let out := wordSkip env d f st
       out.2.offset = st.offset + ((st.rest env).takeWhile (sameLineSpace d)).length ∧ Inv env out.2 ∧
@@ -523,8 +519,8 @@ theorem wordSkip_spec {env : Env} (hfix : env.cfg.fixH = true) (d : Byte → Boo
       rw [hr]
       exact ⟨by simp, h, rfl, rfl⟩
 
-theorem readWordSameLine_spec {env : Env} (hfix : env.cfg.fixH = true) (G : NumKind → Grammar) (d : Byte → Bool)
-    (f : Nat) (st : St) (h : Inv env st) (hf : env.bytes.length + 1 < f) :
+theorem readWordSameLine_spec {env : Env} (hfix : ShiftFixed env) (G : NumKind → Grammar) (d : Byte → Bool)
+    (f : Nat) (st : St) (h : Inv env st) (hf : 2 * env.bytes.length + 3 < f) :
     (readWordSameLine env d f st).1 = (specOp G (.readWordSameLine d) (st.rest env)).1 ∧
     (readWordSameLine env d f st).2.offset = st.offset + (specOp G (.readWordSameLine d) (st.rest env)).2 ∧
     Inv env (readWordSameLine env d f st).2 := by
@@ -614,7 +610,7 @@ theorem take_split_at (l : List Byte) {i j : Nat} (hij : i < j) (hj : j ≤ l.le
     simp [this]
   conv => lhs; rw [h1, h2, h3, h4]
 
-theorem numLoop_spec {env : Env} (hfix : env.cfg.fixH = true) (P : Grammar) (hP : GrammarOK P) :
+theorem numLoop_spec {env : Env} (hfix : ShiftFixed env) (P : Grammar) (hP : GrammarOK P) :
     ∀ (f : Nat) (st : St), Inv env st → mu env st < f →
       (∀ c t, st.rest env = c :: t → isSpace c = false) →
       let out := numLoop env P f st
@@ -748,8 +744,8 @@ theorem dropWhile_head {p : Byte → Bool} {l : List Byte} {c : Byte} {t : List 
     · simp [List.dropWhile, ha] at h; exact ih h
     · simp [List.dropWhile, ha] at h; rw [← h.1]; simpa using ha
 
-theorem readNumber_spec {env : Env} (hfix : env.cfg.fixH = true) (G : NumKind → Grammar) (k : NumKind)
-    (hP : GrammarOK (G k)) (f : Nat) (st : St) (h : Inv env st) (hf : env.bytes.length + 1 < f) :
+theorem readNumber_spec {env : Env} (hfix : ShiftFixed env) (G : NumKind → Grammar) (k : NumKind)
+    (hP : GrammarOK (G k)) (f : Nat) (st : St) (h : Inv env st) (hf : 2 * env.bytes.length + 3 < f) :
     canon (.readNumber k) (readNumber env (G k) f st).1 = (specOp G (.readNumber k) (st.rest env)).1 ∧
     (readNumber env (G k) f st).2.offset = st.offset + (specOp G (.readNumber k) (st.rest env)).2 ∧
     Inv env (readNumber env (G k) f st).2 := by
